@@ -67,8 +67,8 @@ def rule_a(ctx, out):
     # '_0' only when subblock is None
     for d in defs:
         if _name_shape(d.value)[1] == "0":
-            p = getattr(d, "_parent", None)
-            if isinstance(p, ast.If) and d in p.orelse and "subblock is not None" in norm(p.test):
+            from ..core.flow import established_by_enclosing_ifs, compare_atom
+            if established_by_enclosing_ifs(d, gj.node, compare_atom(pidx, None)):
                 out.ok({"unsplit_key": "<name>_0 iff subblock is None"})
             else:
                 out.bad("generate_json:unsplit-key-condition", "the '_0' key is not restricted to subblock is None", where(gj, d))
